@@ -115,6 +115,54 @@ def program(fn, tuples):
     return "\n".join(lines) + "\n"
 
 
+def loop_program(fn, pairs):
+    """every call inside a loop of the CALLING program (counted loop, range loop, loop without step) that runs twice: the library's own
+    loops and the caller's loop are different loops (round 8: C15-B, the Bash first-iteration flag numbered by nesting depth - a library
+    function's loop reset the flag of the caller's loop and the caller's step was skipped)"""
+    _, rets = SIGS[fn]
+    lines = ['import "strings"']
+    exp = []
+    for i, (t, g) in enumerate(pairs):
+        call = "strings.%s(%s)" % (fn, ", ".join(tsh_arg(a) for a in t))
+        body = ['print("#%d")' % i]
+        if rets == "s":
+            body.append('print("[" + %s + "]")' % call)
+        elif rets in ("i", "b"):
+            body.append("print(%s)" % call)
+        elif rets == "l":
+            body += ["r%d := %s" % (i, call), "print(len(r%d))" % i, "for k%d, e%d := range r%d {" % (i, i, i), '\tprint("[" + e%d + "]")' % i, "}"]
+        elif rets == "ssb":
+            body += ["x%d, y%d, z%d := %s" % (i, i, i, call), 'print("[" + x%d + "]")' % i, 'print("[" + y%d + "]")' % i, "print(z%d)" % i]
+        elif rets == "sb":
+            body += ["x%d, z%d := %s" % (i, i, call), 'print("[" + x%d + "]")' % i, "print(z%d)" % i]
+        form = i % 3
+        if form == 0:
+            lines.append("for w%d := 0; w%d < 2; w%d++ {" % (i, i, i))
+        elif form == 1:
+            lines.append("for u%d, w%d := range []int{5, 6} {" % (i, i))
+        else:
+            lines += ["w%d := 0" % i, "for w%d < 2 {" % i]
+            body.append("w%d = w%d + 1" % (i, i))
+        lines += ["\t" + l for l in body] + ["}"]
+        for _ in range(2):
+            exp.append("#%d" % i)
+            exp += expected_lines(fn, g)
+    return "\n".join(lines) + "\n", exp
+
+
+def _cmd(script):
+    import cmdsim
+    try:
+        out, st = cmdsim.run(script, max_steps=3000000)
+        return ("ok", out, st)
+    except cmdsim.Stuck as e:
+        return ("stuck", str(e), None)
+    except cmdsim.Budget:
+        return ("budget", "", None)
+    except (RecursionError, MemoryError):
+        return ("budget", "recursion/memory", None)
+
+
 def pair_program(fn, pairs):
     """two calls of the SAME library function in one statement (round 7: C15-8, one result variable per called function in the bash
     output - both operands read the value of the last call); every result is needed at once: as operands of one expression, as
@@ -162,6 +210,7 @@ def run(res, b, tier, seed):
                                 meta=dict(fn="(several, called at the top level of three imported files)", expected=MULTI_FILE_EXPECTED,
                                           src="\n".join("// %s\n%s" % kv for kv in MULTI_FILE.items())))]
     total = 0
+    batch_cases = []
     spec_dis, model_lines_by = [], {}
     for fn in SIGS:
         tuples = arg_tuples(rng, fn, quick)
@@ -181,6 +230,25 @@ def run(res, b, tier, seed):
             pp = [(r2.choice(pairs), r2.choice(pairs)) for _ in range(40)]
             psrc, pexp = pair_program(fn, pp)
             pair_cases.append(pipeline.Case("pair-" + fn, {"main.tsh": psrc.encode()}, meta=dict(fn=fn, expected=pexp, src=psrc)))
+        if pairs:
+            r3 = random.Random(seed * 11 + len(fn))
+            lp = [r3.choice(pairs) for _ in range(9)]
+            lsrc, lexp = loop_program(fn, lp)
+            pair_cases.append(pipeline.Case("loop-" + fn, {"main.tsh": lsrc.encode()}, meta=dict(fn=fn, expected=lexp, src=lsrc)))
+            # a sample for the Batch target (executed by the cmd model of C05); calls with an empty string among the arguments apart:
+            # there the known finding substring-of-empty-string of C05 shows through the library
+            def has_empty(t):
+                return any(a == "" or (isinstance(a, (list, tuple)) and "" in a) for a in t)
+            for tag, pool in (("batch-", [p_ for p_ in pairs if not has_empty(p_[0])]), ("batche-", [p_ for p_ in pairs if has_empty(p_[0])])):
+                if not pool:
+                    continue
+                bp = [r3.choice(pool) for _ in range(8 if tag == "batch-" else 3)]
+                bexp = []
+                for k, (t, g) in enumerate(bp):
+                    bexp.append("#%d" % k)
+                    bexp += expected_lines(fn, g)
+                bsrc = program(fn, [t for t, _ in bp])
+                batch_cases.append(pipeline.Case(tag + fn, {"main.tsh": bsrc.encode()}, meta=dict(fn=fn, expected=bexp, src=bsrc, empty_args=tag == "batche-")))
         size = 60
         for i in range(0, len(pairs), size):
             chunk = pairs[i:i + size]
@@ -205,6 +273,29 @@ def run(res, b, tier, seed):
             k = next((i for i, (x, y) in enumerate(zip(got, c.meta["expected"])) if x != y), min(len(got), len(c.meta["expected"])))
             fails.append((c.meta["fn"], None, "several library calls in one statement / one program: output differs from Go at line %d; program:\n%s" % (k, c.meta["src"][:3000]),
                           c.meta["expected"][max(0, k - 2):k + 2], got[max(0, k - 2):k + 2] + [r["stderr"].decode("latin1")[:200]]))
+    # the listed witness of the known finding batch-substring-of-empty-string, in every run
+    wsrc = program("Split", [("", " a")])
+    batch_cases.append(pipeline.Case("batche-witness", {"main.tsh": wsrc.encode()}, meta=dict(fn="Split", expected=["#0", "1", "[]"], src=wsrc, empty_args=True)))
+    # Batch target: the compiled library under the cmd model
+    pipeline.run_pipe(b, batch_cases, "w")
+    bok = [c for c in batch_cases if c.out.get("BATCH", ("", ""))[0] == "OK"]
+    for c in batch_cases:
+        if c not in bok:
+            fails.append((c.meta["fn"], None, "library call not transpiled for the Batch target", None, None))
+    batch_outcomes = {}
+    for c, r in zip(bok, common.pmap_proc(_cmd, [bytes.fromhex(c.out["BATCH"][1]).decode("utf-8", "replace") for c in bok], chunksize=1)):
+        batch_outcomes[r[0]] = batch_outcomes.get(r[0], 0) + 1
+        if r[0] != "ok":
+            continue                    # outside the cmd model or its step budget: not decided here
+        got = r[1].split("\n")
+        if got and got[-1] == "":
+            got = got[:-1]
+        if got != c.meta["expected"]:
+            k = next((i for i, (x, y) in enumerate(zip(got, c.meta["expected"])) if x != y), min(len(got), len(c.meta["expected"])))
+            if c.meta["empty_args"] and any("~" in ln for ln in got) and res.known_finding("batch-substring-of-empty-string", c.meta["fn"]):
+                continue
+            fails.append((c.meta["fn"], None, "Batch target (cmd model): output differs from Go at line %d; program:\n%s" % (k, c.meta["src"][:3000]),
+                          c.meta["expected"][max(0, k - 2):k + 2], got[max(0, k - 2):k + 2]))
     runnable = []
     for c in batches:
         if c.out.get("BASH", ("", ""))[0] != "OK":
@@ -251,6 +342,7 @@ def run(res, b, tier, seed):
              "bash and compared with Go's strings package (harness mode gostrings); distinct = tuples",
         samples=[dict(function=batches[0].meta["fn"], args=[str(t) for t, _ in batches[0].meta["chunk"][:3]], program=batches[0].meta["src"][:300])],
         per_function={k: dict(calls=v[0], differing=v[1]) for k, v in per_fn.items()},
+        batch_target_under_cmd_model=batch_outcomes,
         correspondence=dict(stage="Lean rendering of std/strings.tsh (Std.Lib, STRM) vs the compiled and executed library; Lean specification (Std.Go, STRS) vs Go's strings package",
                             compared=total, disagreements=len(model_dis), spec_vs_go_disagreements=len(spec_dis)),
         oracle_failures=len(fails),
